@@ -22,10 +22,8 @@ worktree; I confirmed for each that the patch applies, that its demonstration fa
 without it, and then ran the property's quick check with the patch applied to /repo (and reverted it).  Details,
 including what each seed needs in order to manifest and what was changed in a check that missed it, are in
 seeded/<id>/meta.json.  %d seeds so far: %d caught by the check as it was committed at the time, %d missed at first;
-every miss but one led to a strengthening of the check (more of the behaviour behind the property), after which the seed
-is caught and the unchanged tree still passes.  The exception is C06-4 (batch 8: fragment reassembly drops initial_request_n): C06's own
-check feeds unfragmented requests and misses it; C03's reassembly lemma catches it as committed (`reassembled-lost-request-n`);
-making `c03_fragments.c_span_pipeline` an obligation of C06 (as it already is of C01) is the open follow-up.
+every miss led to a strengthening of the check (more of the behaviour behind the property), after which the seed
+is caught and the unchanged tree still passes.
 
 %s
 
